@@ -73,6 +73,10 @@ REQUESTS = [
     ("mutation-partial", {"query": "mutation { m3 m5 }", "custom": {"Mutation.m3": "async", "Mutation.m5": "async"}, "overrides": {"m3": "err"}}, ["query", "parsing", "validation", "execution"]),
     ("preparsed", {"query": "{ a b }", "custom": {"Query.a": "sync"}, "preparsed": True}, ["query", "validation", "execution"]),
     ("preparsed-invalid", {"query": "{ nope }", "preparsed": True}, ["query", "validation"]),
+    # a valid subscription operation sent through the query entry points is refused: whatever started must end
+    ("subscription-refused", {"query": "subscription { ev { x } }"}, ["query", "parsing", "validation"]),
+    ("subscription-refused-named", {"query": "query A { a } subscription S { ev { x } }", "operation_name": "S"}, ["query", "parsing", "validation"]),
+    ("subscription-refused-preparsed", {"query": "subscription { tick }", "preparsed": True}, ["query", "validation"]),
 ]
 
 
